@@ -3,6 +3,7 @@ package fsloop
 import (
 	"runtime"
 
+	"github.com/goatcms/goatcore/varutil/verifhook"
 	"github.com/goatcms/goatcore/workers/jobsync"
 )
 
@@ -22,6 +23,7 @@ func (consumer *Consumer) Loop() {
 		}
 		if len(consumer.loopData.chans.dirChan) == 0 &&
 			len(consumer.loopData.chans.fileChan) == 0 {
+			verifhook.Yield("fsloop.consumer.gap")
 			if consumer.lifecycle.Step() == StepClose {
 				return
 			}
